@@ -539,6 +539,26 @@ def check_separators(ctx):
     from ..normalise import Defs, expand
     import re
     rt = U(expand(r1[-1].value, Defs(mc.body))).replace(' ', '') if r1 else ''
+    # a view of the tree kept on the object: `self.X = <expr of self.tree>` stored once, in the constructor, after self.tree
+    m_ = re.fullmatch(r'list\(self\.(\w+)((?:\.nodes(?:\(\))?)?)\)', rt)
+    if m_ and m_.group(1) != 'tree':
+        stores = []
+        for q_, f_ in mc.module.funcs.items():
+            if f_.cls is mc.cls:
+                for a_ in ast.walk(f_.node):
+                    if isinstance(a_, (ast.Assign, ast.AugAssign)):
+                        for t_ in (a_.targets if isinstance(a_, ast.Assign) else [a_.target]):
+                            for el_ in (t_.elts if isinstance(t_, (ast.Tuple, ast.List)) else [t_]):
+                                if U(el_) == 'self.' + m_.group(1):
+                                    stores.append((f_, a_))
+        init_ = ctx.repo.nfunc(JT, 'JunctionTree.__init__')
+        tree_store = [i_ for i_, s_ in enumerate(init_.body) if isinstance(s_, ast.Assign) and 'self.tree' in [U(e_) for t_ in s_.targets
+                      for e_ in (t_.elts if isinstance(t_, (ast.Tuple, ast.List)) else [t_])]]
+        if len(stores) == 1 and stores[0][0].name == '__init__' and isinstance(stores[0][1], ast.Assign) and len(stores[0][1].targets) == 1 \
+                and stores[0][1] in stores[0][0].node.body and tree_store:
+            pos_ = [i_ for i_, s_ in enumerate(init_.body) if U(s_) == U(stores[0][1])]
+            if pos_ and pos_[0] > tree_store[-1]:
+                rt = 'list(%s%s)' % (U(stores[0][1].value).replace(' ', ''), m_.group(2))
     # a depth-first PREORDER of the tree: every clique is listed after its tree parent (GraphicalModel.mle divides a clique's marginal by
     # the separator marginal shared with a clique listed earlier).  dfs_tree without a source adds all nodes first: insertion order.
     pre = re.fullmatch(r'list\(nx\.dfs_preorder_nodes\(self\.tree(,.+)?\)\)', rt) is not None or \
